@@ -182,14 +182,25 @@ class Check(CheckBase):
                 u = r.choice(sorted(world.users))
                 await world.snapshot(u, hist.gen_fileset(r, pool, nmax=5))
 
-        async def restore_on(objects, user, regex, cache=None):
+        async def restore_on(objects, user, regex, cache=None, intact_first=None):
             store = membackend.Store(case['seed'])
-            store.objects = dict(objects)
+            store.objects = dict(objects if intact_first is None else intact_first)
             be = membackend.make_backend(store, case['flavour'])
             u = world.users[user]
             target = tempfile.mkdtemp(prefix='t-', dir=scratch)
             try:
                 repo = await rep.unlocked(be, u.key, u.password, concurrent=2, cache=cache)
+                if intact_first is not None:
+                    # a long-lived Repository object: it has restored the intact repository once, THEN the objects change
+                    warm = tempfile.mkdtemp(prefix='w-', dir=scratch)
+                    try:
+                        with rep.capture():
+                            await repo.restore(snapshot_regex=regex, path=Path(warm))
+                    finally:
+                        shutil.rmtree(warm, ignore_errors=True)
+                    with store.lock:
+                        store.objects.clear()
+                        store.objects.update(objects)
                 with rep.capture():
                     res = await repo.restore(snapshot_regex=regex, path=Path(target))
                 tree = {'/' + k: v[0] for k, v in gen.walk_tree(target).items()}
@@ -204,6 +215,7 @@ class Check(CheckBase):
             chunks = sorted(n for n in objects if n.startswith('data/'))
             snaps = sorted(n for n in objects if n.startswith('snapshots/'))
             nonce = 12 if enc else 0
+            by_loc_user = {s_.location: s_.user for s_ in world.snaps.values()}
             picks = r.sample(chunks, min(len(chunks), 5)) + snaps
             out = []
             for name in picks:
@@ -233,6 +245,14 @@ class Check(CheckBase):
                     o3 = r.choice(other_kind)
                     out.append(('cross-swap', kind, f'{name} <-> {o3}', lambda m, a=name, b=o3: _swap(m, a, b)))
                 out.append(('delete', kind, f'{name} removed', lambda m, name=name: m.pop(name)))
+                if kind == 'snapshot' and len(world.users) > 1:
+                    # a valid snapshot object of ANOTHER user of the same repository in the place of this one
+                    owner = by_loc_user.get(name)
+                    foreign = [x for x in snaps if by_loc_user.get(x) not in (None, owner)]
+                    if foreign:
+                        o4 = r.choice(foreign)
+                        out.append(('replay-foreign', kind, f'{o4} (by {by_loc_user[o4]}) copied over {name} (by {owner})',
+                                    lambda m, a=name, b=o4: m.__setitem__(a, m[b])))
             return out
 
         async def go():
@@ -266,7 +286,10 @@ class Check(CheckBase):
                 # retrying after a failure: every attempt is judged by the same oracle
                 cache = tempfile.mkdtemp(prefix='cache-', dir=scratch) if counters['corruptions'] % 4 == 0 else None
                 attempts = 1
-                outcome, val, listed = await restore_on(objs, user, regex, cache)
+                reuse = cache is None and counters['corruptions'] % 4 == 1
+                if reuse:
+                    counters['restores_by_an_object_that_saw_the_intact_repository'] = counters.get('restores_by_an_object_that_saw_the_intact_repository', 0) + 1
+                outcome, val, listed = await restore_on(objs, user, regex, cache, intact_first=base if reuse else None)
                 while cache is not None and outcome == 'raised' and attempts < 3:
                     attempts += 1
                     counters['retries_with_cache'] = counters.get('retries_with_cache', 0) + 1
@@ -298,7 +321,7 @@ class Check(CheckBase):
                         oc = 'returned-different'
                         bad = sorted(p for p in set(tree) | set(expect) if tree.get(p) != expect.get(p))[:4]
                         violations.append({
-                            'what': f'restore (attempt {attempts}, cache {"on" if cache else "off"}) reported success after [{label}] but wrote content that differs from what the '
+                            'what': f'restore (attempt {attempts}, cache {"on" if cache else "off"}{", by an object that had restored the intact repository before" if reuse else ""}) reported success after [{label}] but wrote content that differs from what the '
                                     f'intact repository holds ({len(bad)} path(s) differ)',
                             'mechanism': None,
                             'witness': {'corruptions': [c[2] for c in combo], 'paths': bad, 'user': user, 'regex': regex,
